@@ -78,6 +78,10 @@ TRANSLATORS = [
     ("skeleton_tr.py", "file_builder", "Decisions.v"),     # also writes Sites.v and Order.v
     # build_dirs.py + created_files.py as Gallina; Proofs/BookGenLaws.v proves it equal to the hand-written model
     ("bookkeeping_tr.py", "", "BookGen.v"),
+    # simple_operation_executor.py (ExecGenLaws.v: equal to Model/SimpleOps.v) and the in-memory half of cache.py
+    # (CacheGenLaws.v: equal to the new_* routines of Model/Builder.v / Persist.v)
+    ("executor_tr.py", "", "ExecGen.v"),
+    ("cache_tr.py", "", "CacheGen.v"),
 ]
 
 
